@@ -239,6 +239,9 @@ func runCheck(prop, repo, verif, tier string) int {
 				}
 				continue
 			}
+			if len(x.O.Props) > 0 && !hasProp(x.O.Props, prop) {
+				continue // a clause labelled for other properties only
+			}
 			nObl++
 			solverTime += x.R.Time
 			if x.OK {
